@@ -381,3 +381,19 @@ _ADDR7DF = (" R07.9: CodeBuilder.dataclass_fields is interpreted from its own so
             "name, the Field object of the nearest declaring ancestor, as dataclasses itself does.")
 EXPLANATION += _ADDR7DF
 LEVEL_TEXT += _ADDR7DF
+
+
+_run_before_r7rt = run
+
+
+def run(repo, rep, tier):  # noqa: F811 -- round 7: get_real_type leaves the trusted base
+    _run_before_r7rt(repo, rep, tier)
+    if getattr(rep, "borrowed", False):
+        return
+    from ..core import typepreds as _tprt
+    _tprt.real_type_cases(repo, rep, "R01.7")
+
+
+_ADD_R7RT = ' Borrowed: R01.7 (get_real_type substitutes the parameters of the defining class).'
+EXPLANATION += _ADD_R7RT
+LEVEL_TEXT += _ADD_R7RT
